@@ -73,6 +73,20 @@ def _do_load(op, profile=False):
     flag0 = bool(op.get("flag0", True))
     rv.errors.RAISE_CONTROLLER_VALUE_ERRORS = flag0
     obj = None
+    # configuration knob: the library's "raise range errors on read" switch (a load in
+    # strict mode leaves by ControllerValueError when a stored value is out of range)
+    import rv.readers.reader as _rr
+
+    saved_knob = _rr.RAISE_RANGE_ERRORS_ON_READ
+    _rr.RAISE_RANGE_ERRORS_ON_READ = bool(op.get("strict_read", False))
+    try:
+        return _do_load_inner(op, ctx, data, how, name, flag0)
+    finally:
+        _rr.RAISE_RANGE_ERRORS_ON_READ = saved_knob
+
+
+def _do_load_inner(op, ctx, data, how, name, flag0):
+    obj = None
     with active(ctx):
         try:
             if how == "file":
@@ -125,6 +139,12 @@ def execute(case):
                     probes["load_with_nested_stream"] = probes.get("load_with_nested_stream", 0) + 1
                 if exit_ in ("raise:SimCancel", "raise:MemoryError"):
                     probes["load_raised_non_Exception_or_MemoryError"] = probes.get("load_raised_non_Exception_or_MemoryError", 0) + 1
+                if exit_ == "raise:ControllerValueError":
+                    probes["strict_read_load_left_by_ControllerValueError"] = probes.get("strict_read_load_left_by_ControllerValueError", 0) + 1
+                if sum(1 for st_ in ctx.streams if st_.origin == "nested") >= 2:
+                    probes["load_with_two_or_more_nested_streams"] = probes.get("load_with_two_or_more_nested_streams", 0) + 1
+                if len(ctx.fired) >= 2:
+                    probes["two_faults_fired_in_one_load"] = probes.get("two_faults_fired_in_one_load", 0) + 1
                 if exit_ == "return:NoneType":
                     probes["load_returned_None"] = probes.get("load_returned_None", 0) + 1
                 for key, n in env.LOG.take().items():
@@ -321,6 +341,8 @@ def plan(tier, seed):
     for spec in (lenient_specs()[:6] if tier == "quick" else lenient_specs()):
         units.append({"kind": "sweep", "file": spec, "how": "path", "flag0": True, "calls_only": True})
         units.append({"kind": "sweep", "file": spec, "how": "file", "flag0": False, "calls_only": True})
+        units.append({"kind": "sweep", "file": spec, "how": "path", "flag0": True, "calls_only": True, "strict_read": True})
+        units.append({"kind": "sweep", "file": spec, "how": "path", "flag0": False, "calls_only": True, "strict_read": True})
     for spec in gen_specs(tier, seed):
         units.append({"kind": "sweep", "file": spec, "how": "path", "flag0": True, "calls_only": True, "sample": 400})
     nflip = 40 if tier == "quick" else 400
@@ -349,10 +371,12 @@ def generate(seed, i, tier="quick"):
             faults = []
             if r.random() < 0.75:
                 plans = _cached_space(spec, how)
-                faults = r.choice(plans)
+                faults = list(r.choice(plans))
+                if r.random() < 0.25:  # a second fault in the same load (e.g. short read, then EIO; nested + close)
+                    faults = faults + [f for f in r.choice(plans) if f not in faults]
             elif r.random() < 0.5:
                 faults = seeded_flips(spec, how, r.randrange(1 << 30), 1)[0]
-            ops.append({"k": "load", "file": spec, "how": how, "flag0": r.random() < 0.5, "faults": faults})
+            ops.append({"k": "load", "file": spec, "how": how, "flag0": r.random() < 0.5, "faults": faults, "strict_read": r.random() < 0.15})
         elif x < 0.9:
             ops.append({"k": "probe", "sel": r.randrange(6)})
         else:
@@ -387,7 +411,7 @@ def run_unit(unit):
             case = {
                 "property": PROPERTY,
                 "world": "loader",
-                "ops": [{"k": "load", "file": spec, "how": how, "flag0": flag0, "faults": p}, {"k": "probe", "sel": 0}],
+                "ops": [{"k": "load", "file": spec, "how": how, "flag0": flag0, "faults": p, "strict_read": bool(unit.get("strict_read"))}, {"k": "probe", "sel": 0}],
             }
             acc.run(execute, case)
         acc.probes["sweep_complete:%s" % how] += 1
